@@ -276,4 +276,4 @@ def run(ctx) -> None:
     if ctx.tier != "quick":
         ctx.exhaustive("glob-to-regex-converter-small-alphabet", MOD, "conv_shard", [("a*.+", 6, 5, i, nsh) for i in range(nsh)],
                        "every pattern over 'a*.+' up to length 6 x every subject up to length 5")
-    ctx.random("trees-with-exclusions", MOD, "strategy", "check_case", 3000 if ctx.tier == "quick" else 50000)
+    ctx.random("trees-with-exclusions", MOD, "strategy", "check_case", 3000 if ctx.tier == "quick" else 150000)
